@@ -127,6 +127,10 @@ def main(argv):
     # ---- 1. tie: build the implementation side and regenerate Gen -----------------------------------------
     try:
         ctx.stats['build_impl_s'] = round(core.build_impl(lichess=prop.get('needs_lichess', False)), 1)
+        # a translator that no longer understands the source is a broken tie, but the search for a concrete failing input
+        # still runs (against the model generated from the last source the translator understood)
+        for what, detail in core.SOFT_TIE:
+            violations.append({'kind': 'tie', 'theorem': what, 'why': 'the translator no longer understands the current source; the model is the one of the last translated source', 'detail': detail})
     except Broken as e:
         violations.append({'kind': 'tie', 'theorem': e.what, 'why': 'the harness does not build against the current tree', 'detail': e.detail})
         driver_ok = False
@@ -211,7 +215,8 @@ def main(argv):
     exit_code = 0
     rdir = os.path.join(core.WORK, 'replays')
     os.makedirs(rdir, exist_ok=True)
-    for n, (sig, vs) in enumerate(sorted(by_sig.items())):
+    # concrete property failures (replayable inputs) first, then broken correspondences / proofs / ties
+    for n, (sig, vs) in enumerate(sorted(by_sig.items(), key=lambda kv: (0 if kv[1][0]['kind'] == 'property' and kv[1][0].get('input') else 1, kv[0]))):
         # the smallest input is the replay
         vs.sort(key=lambda v: len(v.get('input') or ''))
         v = dict(vs[0])
